@@ -521,6 +521,27 @@ func c04MixedItems(r *Run) {
 						map[string]any{"template": chained, "ns": fmt.Sprint(ns), "expected": wantQ, "got": gotQ, "err": fmt.Sprint(qerr)})
 				}
 			}
+			// a loop variable named like a root key: a path that leads nowhere on the item leads nowhere - it is not answered
+			// from the root value the variable hides (text, bound attribute, nested loop with its v-else)
+			{
+				shadow := `<p v-for="item in items2" :title="item.badge">{{ item.name }}:{{ item.badge }}:{{ item.meta.k }}</p>` +
+					`<div v-for="group in groups2"><span v-for="t in group.tags">{{ t }}</span><em v-else>none</em></div>`
+				sdata := map[string]any{
+					"item":    map[string]any{"name": "ROOT", "badge": "gold", "meta": map[string]any{"k": "rootk"}},
+					"items2":  []any{map[string]any{"name": "a"}, map[string]any{"name": "b", "badge": "tin"}},
+					"group":   map[string]any{"tags": []any{"x", "y"}},
+					"groups2": []any{map[string]any{"id": 1}, map[string]any{"id": 2, "tags": []any{"z"}}},
+				}
+				var sb bytes.Buffer
+				serr := eng.New().Fill(sdata).RenderString(context.Background(), &sb, shadow)
+				got := strings.Join(strings.Fields(sb.String()), "")
+				want := `<p>a::</p><ptitle="tin">b:tin:</p><div><em>none</em></div><div><span>z</span></div>`
+				r.Eval(fmt.Sprintf("shadowed-root-key:%d:%d", c, round), true, nil)
+				if serr != nil || got != want {
+					r.Fail("a path that fails on the loop item is answered from the root value the loop variable hides", map[string]string{"oracle": "shadowed-root-key", "kind": "oracle"},
+						map[string]any{"template": shadow, "expected": want, "got": got, "err": fmt.Sprint(serr)})
+				}
+			}
 			tpl := `<i v-for="(i, x) in xs" :data-t="x">{{ i }}={{ x }}</i>` +
 				`<b v-for="item in users" v-if="item.Active">{{ item.Name }}</b>` +
 				`<u v-for="item in groups" v-if="item.Active">{{ item.Name }}{{ item.Size }}</u>` +
